@@ -46,7 +46,7 @@ class C18(core.Prop):
                         script += [["writefail", 2], ["dev", False], ["fault", 1, "eof"]]
                     elif fault == "own-write-error":
                         # a write to the connection fails first; it ends (by end of stream) afterwards
-                        script += [["writefail", 1], ["dev", False], ["fault", 1, "eof"]]
+                        script += [["writefail", 1], ["dev", False], ["dev", False], ["dev", True], ["fault", 1, "eof"]]
                     else:
                         script += [["fault", 1, fault]]
                     script += base[pos:] + [["dev", False], ["dev", True], ["open", 4, "tcp"], ["dev", True], ["dev", False]]
@@ -129,6 +129,19 @@ class C18(core.Prop):
         base = after["received"]["1"]
         open_ids = {2}
         rec_before = None
+        # the others are served from the moment the connection's writes begin to fail, not only once it has ended
+        wi = next((i for i, s in enumerate(c["script"]) if s[0] == "writefail" and s[1] == 1), None)
+        if wi is not None:
+            ids = {s[1] for s in c["script"][:wi] if s[0] == "open" and s[1] != 1}
+            for i in range(wi + 1, fi):
+                st, step = c["script"][i], obs["steps"][i]
+                prev = obs["steps"][i - 1]
+                if st[0] == "dev" and not st[1]:
+                    for cid in ids:
+                        if cid == 3:
+                            continue
+                        if str(cid) in prev["received"] and step["received"][str(cid)] != prev["received"][str(cid)] + 1:
+                            return "other-not-served: connection %d did not receive the device update sent while writes to the failing %s connection fail" % (cid, c["victim"])
         for i in range(fi + 1, len(c["script"])):
             st, step = c["script"][i], obs["steps"][i]
             if step["received"]["1"] != base:
